@@ -580,6 +580,54 @@ func runEmphasis(c *reg.Ctx, n int) {
 	}
 }
 
+// ---- the inline main loop against its model ----
+
+var inlineAlphabet = []string{"a", "b", " ", "  ", "\n", "  \n", "\\\n", "*", "**", "_", "__", "***", "`", "``", "\\", "\\*", "\\a", "&", "&amp;", "&#35;", "&NewLine;", "&#10;", "&x;", "!", ".", "(", "x y", "\\`", " \n ", "#", "-", "1.", "\""}
+
+func inlineCase(c *reg.Ctx, text string) {
+	ops := md.VerifC35RenderInline(text)
+	var coq []string
+	for _, op := range ops {
+		switch op.Kind {
+		case 0:
+			coq = append(coq, App("IOText", Str(op.Text)))
+		case 1:
+			coq = append(coq, App("IOCode", Str(op.Text)))
+		case 2:
+			coq = append(coq, "IONewline")
+		case 3:
+			coq = append(coq, "IOHard")
+		case 4:
+			coq = append(coq, "(IOEm true false)")
+		case 5:
+			coq = append(coq, "(IOEm false false)")
+		case 6:
+			coq = append(coq, "(IOEm true true)")
+		case 7:
+			coq = append(coq, "(IOEm false true)")
+		default:
+			return // outside the modelled constructs
+		}
+	}
+	c.Count("kernel/inline-loop")
+	c.Emit(reg.Case{Coq: App("KInline", Str(text), List(coq)), Desc: desc{Kind: "inline-loop", Input: text, Obs: fmt.Sprint(ops)},
+		Key: "inl|" + text, Class: "kernel-inline-loop", Nontrivial: len(ops) > 1})
+}
+
+func runInlineLoop(c *reg.Ctx, n int) {
+	for _, t := range []string{"", "a", "a  \nb", "a\\\nb", "`a` `` b ` c ``", "``a`b", "*a* **b** _c_", "a&amp;b&#10;c", "\\*a\\*", "a \n  b", "`a\nb`", "**a*b****", "a\\", "&", "!a", "a  ", "`"} {
+		inlineCase(c, t)
+	}
+	for i := 0; i < n; i++ {
+		var sb strings.Builder
+		for k, m := 0, 1+c.Rand.Intn(9); k < m; k++ {
+			sb.WriteString(inlineAlphabet[c.Rand.Intn(len(inlineAlphabet))])
+		}
+		// renderInline gets paragraph text: trimmed, never ending in a newline
+		inlineCase(c, strings.Trim(sb.String(), " \t\n"))
+	}
+}
+
 func run(c *reg.Ctx) {
 	g := &mdgen.Gen{R: c.Rand}
 	// 1. the CommonMark spec corpus
@@ -596,6 +644,7 @@ func run(c *reg.Ctx) {
 	}
 	runKernels(c, nk)
 	runEmphasis(c, c.N/4)
+	runInlineLoop(c, c.N/4)
 	// 4. grammar-generated documents against goldmark
 	nd := c.N / 4
 	for i := 0; i < nd; i++ {
